@@ -310,7 +310,28 @@ var addrCheck = &core.Check{Name: "c20/msgaddress", Quick: 6000, Thorough: 40000
 	for _, e := range g.Events {
 		c.Class(e)
 	}
-	return roundTrip(c, msgAddrT, v)
+	if err := roundTrip(c, msgAddrT, v); err != nil {
+		return err
+	}
+	// a text whose workchain part is not a number in range is malformed, whatever follows the colon
+	if doc, err := json.Marshal(v.Interface()); err == nil && len(doc) > 2 && doc[0] == '"' {
+		text := string(doc[1 : len(doc)-1])
+		if i := strings.IndexByte(text, ':'); i > 0 {
+			for _, wc := range []string{"abc", "", "1O0", "2147483648", "-2147483649", text[:i] + "x", "0x10", "1e3", "+-1", " "} {
+				bad := `"` + wc + text[i:] + `"`
+				var dst tlb.MsgAddress
+				var uerr error
+				if perr := core.Protect(func() error { uerr = json.Unmarshal([]byte(bad), &dst); return nil }); perr != nil {
+					return fmt.Errorf("tlb.MsgAddress: parsing the malformed document %s panicked: %v", trunc(bad), perr)
+				}
+				if uerr == nil {
+					return fmt.Errorf("tlb.MsgAddress: the malformed document %s (workchain %q is not a number in range) was accepted as %+v", trunc(bad), wc, dst)
+				}
+			}
+			c.Class("address text with a damaged workchain refused")
+		}
+	}
+	return nil
 }}
 
 func pseudoTape(seed uint64, first ...uint64) []uint64 {
